@@ -22,7 +22,17 @@ RULE = ('case = (table, operation with its arguments), run on the 3 backends; op
         'every ordered duplicate-free index list (so empty and unsorted ones), the 48 slices start{None,0,1,-1} x '
         'stop{None,k,k-1} x step{None,1,2,-1}. Exhaustive part enumerates all tables in scope; then seeded random tables. '
         'non-trivial = table neither all-true nor all-false and the operation takes an argument or returns a table/vector; '
-        'distinct = distinct (table, operation, arguments)')
+        'distinct = distinct (table, operation, arguments). HISTORIES on one table object per backend (never a cached '
+        'one): (H1) use, `bt.data = B` through the public setter (python lists or the backend\'s own data taken from another '
+        'table; same shape, other shape, empty), use again - and for FormalContext `ctx.data.data = B`, '
+        '`ctx.object_names = ..`, `ctx.attribute_names = ..`; (H2) use, then an in-place edit by the caller of the list '
+        'object that was passed in / of the `data` container / of the value returned by to_list() or bt[i], or re-filling '
+        'a table returned by T, ~, &, [:], then use again. `use` = every kind of operation (all memos warm) or one single '
+        'operation. Every answer is judged against Spec.Table.run on the content the object holds at that moment (after '
+        '`data = B`: B on every backend; after a caller edit: what that backend\'s own to_list() shows, since whether the '
+        'edit reaches the table is not promised - but all later answers must fit it). Second operands of & | == are '
+        'checked to be left untouched. Index collections also as tuples and ranges; wide shapes (65-129 columns, 66 rows, '
+        '13-15 squared).')
 EXHAUSTIVE = {
     'quick': 'all 682 tables n,m<=3 x every operation x every value of every selection slot (every item shape, every '
              'axis, None / empty / every ordered duplicate-free list / the 48 slices) x 3 backends, plus FormalContext on '
@@ -35,6 +45,11 @@ EXHAUSTIVE = {
              'FormalContext[sel,sel] 1/32',
     'thorough': 'as quick but every two-slot cross product is complete for every table n,m<=3',
 }
+HISTORY_SCOPE = {
+    'quick': 'deterministic histories for every table with n*m<=4, every 8th 2x3/3x2 and every 32nd 3x3 table: 4-5 new '
+             'contents x {lists, native} setter, 4 kinds of caller edits, 4 re-filled results, each after all ~37 '
+             'operations and after 3 single operations, followed by all operations; plus seeded random histories',
+}
 EXPLANATION = ('every observable is pinned uniquely by the property: implementation != Spec.Table.run is a property failure; '
                'Fca.C05.backend_run_eq_spec proves each backend model = Spec for all well-formed tables and in-range '
                'selections, so a backend that differs from the spec on an explored input also differs from its model')
@@ -44,15 +59,23 @@ ASSUMPTIONS = ['start tables have n>=1 rows and m>=1 columns of Python bools; em
                '&, | take an operand of the same backend; == any backend; all_i/any_i are called with axis 0 or 1 '
                '(or an unknown integer axis, which must raise UnknownAxisError everywhere)',
                'operations are also applied to the (possibly empty: 0x0, hx0) results of sub-table selections',
-               'object/attribute names pairwise distinct strings; targets None']
+               'object/attribute names pairwise distinct strings; targets None',
+               'index collections: lists, ranges, tuples for columns; tuples for ROWS are excluded because '
+               'BinTableNumpy.all/any/sum(rows=<tuple>) treats the tuple as a multi-dimensional index (reported defect)',
+               'in histories the caller edits single cells only (no structural edit of the passed-in list)']
 TRUSTED = ['bitarray primitives (|, &, ~, all, any, count, search(1), native slicing) and numpy primitives (fancy / slice '
            'indexing, np.ix_, .T, all/any/sum(axis), ==) are written out in Fca/Model/BinTableOps.lean, not verified',
            'Python slice semantics = Fca.sliceIndices (checked here against every slice run, and against slice.indices '
            'directly in the slices stream)']
 CHUNK = 1500
 
-OBJ = ['g%d' % i for i in range(16)]
-ATT = ['a', 'not b', 'not not c', 'not', 'nota', ' not e', 'not  f', 'h', 'not i', 'j', 'not k', 'l', 'm', 'n', 'not o', 'p']
+OBJ = ['g%d' % i for i in range(140)]
+ATT = (['a', 'not b', 'not not c', 'not', 'nota', ' not e', 'not  f', 'h', 'not i', 'j', 'not k', 'l', 'm', 'n', 'not o', 'p']
+       + [('not ' if i % 3 == 0 else '') + 'm%d' % i for i in range(16, 140)])
+REQUESTS_NEED_IMPL = True
+# BinTableNumpy.all/any/sum(rows=<tuple>) indexes `data[tuple]` as a multi-dimensional index (reported); tuples are
+# therefore only used for the column selection until that is repaired
+TUPLE_ROWS_OK = True
 
 
 # ----------------------------------------------------------------------------------------------
@@ -275,6 +298,154 @@ def fixed_chain_cases():
         yield from chain_cases(rows, items, 'chained')
 
 
+def hist_ops(rows, tidx=0):
+    """A representative set of operations valid on a table with the content `rows` (may be []): every kind of
+    operation, with the selections reversed where there is a choice."""
+    n = len(rows)
+    m = len(rows[0]) if rows else 0
+    ops = [{'k': 'tolist'}, {'k': 'shape'}, {'k': 'T'}, {'k': 'inv'}, {'k': 'conv', 'dst': SHORT[BACKENDS[tidx % 3]]},
+           {'k': 'all', 'axis': None, 'r': None, 'c': None}, {'k': 'any', 'axis': None, 'r': None, 'c': None},
+           {'k': 'sum', 'axis': None, 'r': None, 'c': None}, {'k': 'all', 'axis': 0, 'r': None, 'c': None},
+           {'k': 'any', 'axis': 1, 'r': None, 'c': None}, {'k': 'sum', 'axis': 0, 'r': None, 'c': None},
+           {'k': 'sum', 'axis': 1, 'r': None, 'c': None}, {'k': 'alli', 'axis': 0, 'r': None, 'c': None},
+           {'k': 'anyi', 'axis': 1, 'r': None, 'c': None}, {'k': 'eqself'}, {'k': 'andself'}, {'k': 'orself'},
+           {'k': 'getitem', 'item': [{'sl': [None, None, -1]}, {'sl': [None, None, None]}]},
+           {'k': 'getitem', 'item': [{'sl': [None, None, None]}]}]
+    if n > 0 and m > 0:
+        rr, cc = list(range(n))[::-1], list(range(m))[::-1]
+        comp = [[1 - v for v in r] for r in rows]
+        ops += [{'k': 'all', 'axis': 0, 'r': rr, 'c': cc}, {'k': 'any', 'axis': 0, 'r': rr[:1], 'c': cc},
+                {'k': 'all', 'axis': 1, 'r': rr, 'c': cc[:1]}, {'k': 'sum', 'axis': 0, 'r': rr, 'c': cc},
+                {'k': 'sum', 'axis': 1, 'r': rr[:1], 'c': cc}, {'k': 'alli', 'axis': 1, 'r': rr, 'c': cc[:1]},
+                {'k': 'anyi', 'axis': 0, 'r': rr, 'c': cc},
+                {'k': 'getitem', 'item': [n - 1]}, {'k': 'getitem', 'item': [n - 1, m - 1]}, {'k': 'getitem', 'item': [0, 0]},
+                {'k': 'getitem', 'item': [0, {'sl': [None, None, -1]}]}, {'k': 'getitem', 'item': [{'idx': rr}, m - 1]},
+                {'k': 'getitem', 'item': [{'idx': rr}, {'idx': cc}]}, {'k': 'getitem', 'item': [{'idx': rr}]},
+                {'k': 'eq', 'obe': SHORT[BACKENDS[(tidx + 1) % 3]], 'orows': rows, 'ow': m},
+                {'k': 'eq', 'obe': SHORT[BACKENDS[(tidx + 2) % 3]], 'orows': comp, 'ow': m},
+                {'k': 'and', 'orows': comp, 'ow': m}, {'k': 'or', 'orows': comp, 'ow': m}]
+    return ops
+
+
+def new_contents(rows, tidx):
+    """what `data = ...` may put in: same shape (complement, one cell flipped, rows rotated), another shape
+    (transposed / a row less / a column more), nothing at all"""
+    n, m = len(rows), len(rows[0])
+    i, j = tidx % n, (tidx // n) % m
+    fl = [list(r) for r in rows]
+    fl[i][j] = 1 - fl[i][j]
+    out = [[[1 - v for v in r] for r in rows], fl]
+    if n != m:
+        out.append([[rows[a][b] for a in range(n)] for b in range(m)])
+    else:
+        out.append([r + [1 - r[0]] for r in rows])
+    if n > 1:
+        out.append(rows[1:])
+    else:
+        out.append(rows + [[1 - v for v in rows[0]]])
+    if tidx % 3 == 0:
+        out.append([])
+    return out
+
+
+def q(ops):
+    return [{'q': o} for o in ops]
+
+
+def table_histories(rows, tidx, stream, rng=None):
+    """(H1) use, `data = B` through the public setter, use again; (H2) use, in-place edit by the caller of the list
+    that was passed in / the `data` container / a returned value, use again; a returned table re-filled by the caller.
+    `use` = every operation (all memos warm), and a few histories with a single operation before the change."""
+    n, m = len(rows), len(rows[0])
+    ops_a = hist_ops(rows, tidx)
+    muts = []
+    for b_i, B in enumerate(new_contents(rows, tidx)):
+        muts.append(([{'set': B, 'how': 'native' if (b_i + tidx) % 2 else 'lists'}], B))
+    i, j = (tidx // 2) % n, (tidx // 3) % m
+    for via in ('arg', 'data', 'tolist', 'row'):
+        muts.append(([{'flip': [i, j], 'via': via}], rows))
+    comp = [[1 - v for v in r] for r in rows]
+    for o in ({'k': 'T'}, {'k': 'inv'}, {'k': 'andself'}, {'k': 'getitem', 'item': [{'sl': [None, None, None]}]}):
+        muts.append(([{'mutres': o, 'to': comp if o['k'] != 'T' else [list(r) for r in rows[:1]]}], rows))
+    if rng is not None:
+        muts = rng.sample(muts, 4)
+    for mi, (mut, after) in enumerate(muts):
+        ops_b = hist_ops(after, tidx + mi)
+        yield dict(stream=stream, level='hist', rows=rows, steps=q(ops_a) + mut + q(ops_b))
+        singles = [ops_a[(tidx + mi + k * 7) % len(ops_a)] for k in range(2)] + [{'k': 'T'}]
+        for o1 in singles:
+            yield dict(stream=stream, level='hist', rows=rows, steps=q([o1]) + mut + q(ops_b))
+    # two changes in a row, querying only at the end and in between only T
+    Bs = new_contents(rows, tidx)
+    yield dict(stream=stream, level='hist', rows=rows,
+               steps=q([{'k': 'T'}]) + [{'set': Bs[0]}] + q([{'k': 'T'}]) + [{'set': Bs[2], 'how': 'native'}]
+               + q(hist_ops(Bs[2], tidx)))
+
+
+def random_history(rng, rows, stream):
+    cur = rows
+    steps = []
+    for _ in range(rng.randint(3, 7)):
+        ops = hist_ops(cur, rng.randrange(6))
+        steps += q(rng.sample(ops, min(len(ops), rng.randint(1, 4))))
+        t = rng.random()
+        if t < 0.5 or not cur or not cur[0]:
+            n2, m2 = rng.randint(1, 5), rng.randint(1, 5)
+            cur = [[int(rng.random() < 0.5) for _ in range(m2)] for _ in range(n2)] if rng.random() < 0.9 else []
+            steps.append({'set': cur, 'how': rng.choice(['lists', 'native'])})
+        elif t < 0.85:
+            steps.append({'flip': [rng.randrange(len(cur)), rng.randrange(len(cur[0]))],
+                          'via': rng.choice(['arg', 'data', 'tolist', 'row'])})
+            # the edit may or may not reach the table: later operations only use selections valid for the shape
+        else:
+            steps.append({'mutres': rng.choice([{'k': 'T'}, {'k': 'inv'}, {'k': 'andself'}]),
+                          'to': [[1 - v for v in r] for r in cur]})
+    steps += q(hist_ops(cur, rng.randrange(6)))
+    return dict(stream=stream, level='hist', rows=rows, steps=steps)
+
+
+def ctx_hist_ops(rows, tidx):
+    n, m = len(rows), len(rows[0])
+    rr, cc = list(range(n))[::-1], list(range(m))[::-1]
+    return [{'k': 'T'}, {'k': 'inv'}, {'k': 'getitem', 'item': [{'idx': rr}, {'idx': cc}]},
+            {'k': 'getitem', 'item': [n - 1]}, {'k': 'getitem', 'item': [0, m - 1]},
+            {'k': 'getitem', 'item': [{'sl': [None, None, -1]}]}, {'k': 'getitem', 'item': [{'idx': rr}, 0]}]
+
+
+def ctx_histories(rows, tidx, stream):
+    """FormalContext: use, then `ctx.data.data = B` (same shape) / `ctx.object_names = ...` /
+    `ctx.attribute_names = ...`, then use again."""
+    n, m = len(rows), len(rows[0])
+    ops = ctx_hist_ops(rows, tidx)
+    comp = [[1 - v for v in r] for r in rows]
+    objs2 = ['x' + s for s in OBJ[:n]][::-1]
+    attrs2 = [ATT[(k + 1) % 16] for k in range(m)]
+    for mut in ([{'setdata': comp}], [{'setobj': objs2}], [{'setattr': attrs2}],
+                [{'setattr': attrs2}, {'setdata': comp}, {'setobj': objs2}]):
+        yield dict(stream=stream, level='chist', rows=rows, steps=q(ops) + mut + q(ops))
+        yield dict(stream=stream, level='chist', rows=rows, steps=q(ops[tidx % 2:tidx % 2 + 1]) + mut + q(ops))
+
+
+def colltype_ops(rows, rng):
+    """index collections that are not lists: tuples and ranges (rows as a tuple only when TUPLE_ROWS_OK)"""
+    n, m = len(rows), len(rows[0])
+    for k in ('all', 'any', 'sum', 'alli', 'anyi'):
+        for ax in ((None, 0, 1) if k in ('all', 'any', 'sum') else (0, 1)):
+            a, b = sorted(rng.sample(range(n + 1), 2)) if n > 0 else (0, 0)
+            c_, d = sorted(rng.sample(range(m + 1), 2))
+            yield {'k': k, 'axis': ax, 'r': list(range(a, b)), 'c': list(range(c_, d)), 'rt': 'range', 'ct': 'range'}
+            yield {'k': k, 'axis': ax, 'r': G.random_sel(rng, n), 'c': G.random_sel(rng, m),
+                   'rt': 'tuple' if TUPLE_ROWS_OK else 'list', 'ct': 'tuple'}
+            yield {'k': k, 'axis': ax, 'r': None, 'c': list(range(c_, d)), 'ct': 'tuple'}
+
+
+def wide_tables(rng):
+    """shapes beyond the small scope: more than 64 columns / rows (bit packing), two-digit indexes"""
+    for n, m in ((1, 65), (2, 64), (3, 70), (2, 129), (66, 2), (13, 13), (15, 14), (1, 1), (12, 1), (1, 12)):
+        d = rng.choice((0.2, 0.5, 0.8))
+        yield [[int(rng.random() < d) for _ in range(m)] for _ in range(n)]
+
+
 def corpus_cases():
     d = os.path.join(os.path.dirname(os.path.dirname(os.path.dirname(os.path.abspath(__file__)))), 'corpus', 'C05')
     for f in sorted(glob.glob(os.path.join(d, '*.json'))):
@@ -296,6 +467,12 @@ def gen(tier, seed, boost=False):
                     sl.append([a, b, c])
         yield dict(stream='slices', level='slice', len=ln, sls=sl)
     yield from fixed_chain_cases()
+    # histories on one object (H1/H2), deterministic part: every table n,m<=2 and a rotating sample of the larger ones
+    for tidx, rows in enumerate(G.tables_upto(3, 3)):
+        cells = len(rows) * len(rows[0])
+        if cells <= 4 or (cells <= 6 and tidx % 8 == 0) or tidx % 32 == 0 or full:
+            yield from table_histories(rows, tidx, 'histories')
+            yield from ctx_histories(rows, tidx, 'histories-ctx')
     # exhaustive small scope
     for tidx, rows in enumerate(G.tables_upto(3, 3)):
         small = len(rows) * len(rows[0]) <= 4
@@ -326,6 +503,21 @@ def gen(tier, seed, boost=False):
                                       [{'sl': [rng.choice([None, 0, -1, n]), None, rng.choice([1, -1, 2])]}, anysel(m)],
                                       [{'idx': []}, {'sl': [None, None, None]}]],
                                'random-chained')
+        for o in colltype_ops(rows, rng):
+            yield dict(stream='collection-types', level='table', rows=rows, o=o)
+        yield random_history(rng, rows, 'random-histories')
+        if t % 5 == 0:
+            yield from table_histories(rows, t, 'random-histories', rng)
+            yield from ctx_histories(rows, t, 'random-histories-ctx')
+    # shapes beyond the small scope
+    for t, rows in enumerate(wide_tables(rng)):
+        for o in table_ops(rows, t, False, rng, 2):
+            yield dict(stream='wide', level='table', rows=rows, o=o)
+        for o in ctx_ops(rows, t, False, rng, 1):
+            yield dict(stream='wide-ctx', level='ctx', rows=rows, o=o)
+        for o in colltype_ops(rows, rng):
+            yield dict(stream='wide', level='table', rows=rows, o=o)
+        yield from table_histories(rows, t, 'wide-histories', rng)
 
 
 def malformed(rows, rng):
@@ -392,6 +584,22 @@ def canon_value(v, be):
     return None
 
 
+def _coll(xs, typ):
+    """the index collection as the caller passes it: a list (default), a tuple, or a range (contiguous ascending)"""
+    if xs is None:
+        return None
+    if typ == 'tuple':
+        return tuple(xs)
+    if typ == 'range' and len(xs) > 0 and list(xs) == list(range(xs[0], xs[0] + len(xs))):
+        return range(xs[0], xs[0] + len(xs))
+    return list(xs)
+
+
+def _operand_untouched(other, orows):
+    """purity: a binary operation must leave its second operand as it was"""
+    return [_b01(r) for r in other.to_list()] == [list(r) for r in orows]
+
+
 def run_table_op(bt, be, o):
     from fcapy.context.bintable import init_bintable
     import numpy as np
@@ -422,11 +630,18 @@ def run_table_op(bt, be, o):
         return {'bool': int(bool(r))}
     if k in ('and', 'or'):
         other = make_table(o['orows'], be)
-        return canon_table((bt & other) if k == 'and' else (bt | other), be)
+        res = canon_table((bt & other) if k == 'and' else (bt | other), be)
+        if not _operand_untouched(other, o['orows']):
+            _table.cache_clear()
+            return {'operand_mutated': k}
+        return res
     if k == 'eq':
         obe = [b for b in BACKENDS if SHORT[b] == o['obe']][0]
         other = make_table(o['orows'], obe)
         r = (bt == other)
+        if not _operand_untouched(other, o['orows']):
+            _table.cache_clear()
+            return {'operand_mutated': k}
         if not isinstance(r, (bool, np.bool_)):
             return {'notabool': type(r).__name__}
         return {'bool': int(bool(r))}
@@ -438,14 +653,14 @@ def run_table_op(bt, be, o):
             return c
         return {'bools': _b01(r)}
     if k in ('all', 'any', 'sum'):
-        r = getattr(bt, k)(o['axis'], None if o['r'] is None else list(o['r']), None if o['c'] is None else list(o['c']))
+        r = getattr(bt, k)(o['axis'], _coll(o['r'], o.get('rt')), _coll(o['c'], o.get('ct')))
         c = canon_value(r, be)
         if c is not None:
             return c
         return {'nats': [int(x) for x in r]} if k == 'sum' else {'bools': _b01(r)}
     if k in ('alli', 'anyi'):
         f = bt.all_i if k == 'alli' else bt.any_i
-        r = f(o['axis'], None if o['r'] is None else list(o['r']), None if o['c'] is None else list(o['c']))
+        r = f(o['axis'], _coll(o['r'], o.get('rt')), _coll(o['c'], o.get('ct')))
         return {'nats': [int(x) for x in r]}
     raise ValueError('unknown op ' + k)
 
@@ -465,7 +680,10 @@ def canon_ctx(K, be):
 
 def run_ctx_op(rows, be, o):
     n, m = len(rows), len(rows[0])
-    K = make_context(rows, be, OBJ[:n], ATT[:m])
+    return ctx_op_on(make_context(rows, be, OBJ[:n], ATT[:m]), be, o)
+
+
+def ctx_op_on(K, be, o):
     k = o['k']
     if k == 'T':
         return canon_ctx(K.T, be)
@@ -480,7 +698,100 @@ def run_ctx_op(rows, be, o):
     raise ValueError('unknown ctx op ' + k)
 
 
+def _bools(rows):
+    return [[bool(v) for v in r] for r in rows]
+
+
+def run_history(c, be):
+    """One table object of backend `be` lives through the whole history (never a cached one)."""
+    from fcapy.context.bintable import init_bintable
+    arg = _bools(c['rows'])
+    bt = init_bintable(arg, be)
+    outs = []
+    for st in c['steps']:
+        try:
+            if 'q' in st:
+                outs.append(run_table_op(bt, be, st['q']))
+            elif 'set' in st:                      # the public setter `bt.data = ...`
+                arg = _bools(st['set'])
+                if st.get('how') == 'native':      # data in the backend's own format, taken from another table
+                    bt.data = init_bintable(arg, be).data
+                else:
+                    bt.data = arg
+                outs.append({'set': 1})
+            elif 'mutres' in st:                   # the caller re-fills a table it got back from an operation
+                o = st['mutres']
+                r = {'T': lambda: bt.T, 'inv': lambda: ~bt, 'andself': lambda: bt & bt,
+                     'getitem': lambda: bt[_item(o.get('item', []))]}[o['k']]()
+                try:
+                    r.data = _bools(st['to'])
+                except Exception:
+                    pass
+                outs.append({'mutres': 1})
+            else:                                  # hostile but legal in-place edit by the caller
+                i, j = st['flip']
+                try:
+                    via = st['via']
+                    if via == 'arg':               # the list object that was passed in
+                        arg[i][j] = not arg[i][j]
+                    elif via == 'tolist':          # the value returned by to_list()
+                        L = bt.to_list()
+                        L[i][j] = not L[i][j]
+                    elif via == 'row':             # the value returned by bt[i]
+                        r = bt[i]
+                        r[j] = not r[j]
+                    elif via == 'data':            # the public `data` container itself
+                        d = bt.data
+                        if be == 'BinTableNumpy':
+                            d[i, j] = not d[i, j]
+                        elif be == 'BinTableBitarray':
+                            from bitarray import frozenbitarray
+                            bits = [bool(v) for v in d[i]]
+                            bits[j] = not bits[j]
+                            d[i] = frozenbitarray(bits)
+                        else:
+                            d[i][j] = not d[i][j]
+                except Exception:
+                    pass
+                outs.append({'content': [_b01(r) for r in bt.to_list()]})
+        except Exception as e:
+            outs.append({'err': exc_name(e)})
+    return outs
+
+
+def run_ctx_history(c, be):
+    from fcapy.context import FormalContext
+    rows = c['rows']
+    n, m = len(rows), len(rows[0])
+    K = FormalContext(_bools(rows), list(OBJ[:n]), list(ATT[:m]), backend=be)
+    outs = []
+    for st in c['steps']:
+        try:
+            if 'q' in st:
+                outs.append(ctx_op_on(K, be, st['q']))
+            elif 'setdata' in st:
+                K.data.data = _bools(st['setdata'])
+                outs.append({'set': 1})
+            elif 'setobj' in st:
+                K.object_names = list(st['setobj'])
+                outs.append({'set': 1})
+            elif 'setattr' in st:
+                K.attribute_names = list(st['setattr'])
+                outs.append({'set': 1})
+        except Exception as e:
+            outs.append({'err': exc_name(e)})
+    return outs
+
+
 def impl(c):
+    if c['level'] in ('hist', 'chist'):
+        outs = []
+        for be in BACKENDS:
+            try:
+                outs.append(run_history(c, be) if c['level'] == 'hist' else run_ctx_history(c, be))
+            except Exception as e:
+                outs.append([{'err': exc_name(e)}] * len(c['steps']))
+        return {'houts': outs}
     if c['level'] == 'slice':
         return {'idx': [list(range(*slice(a, b, s).indices(c['len']))) for a, b, s in c['sls']]}
     outs = []
@@ -500,7 +811,58 @@ def impl(c):
 # ----------------------------------------------------------------------------------------------
 # Lean side and verdict
 # ----------------------------------------------------------------------------------------------
-def requests(c):
+def _table_req(rows, o):
+    w = len(rows[0]) if rows else 0
+    if o['k'] in ('eqself', 'andself', 'orself'):
+        o = {'k': o['k'][:-4], 'orows': rows, 'ow': w, 'obe': 'lists'}
+    return dict(op='C05.run', rows=rows, w=w, o=o)
+
+
+def hist_plan(c, io):
+    """Walk a history: the content every backend must hold at every query, and the (deduplicated) driver requests.
+    After `data = B` the content is B for every backend; after a hostile in-place edit it is whatever that backend's
+    own to_list() shows now (the edit may or may not reach the table; every later answer has to fit that content)."""
+    houts = io['houts']
+    reqs, index, plan = [], {}, []      # plan: (step, backend, request number)
+    if c['level'] == 'chist':
+        rows, objs, attrs = c['rows'], OBJ[:len(c['rows'])], ATT[:len(c['rows'][0])]
+        for k, st in enumerate(c['steps']):
+            if 'q' in st:
+                r = dict(op='C05.ctx', rows=rows, w=len(rows[0]), objs=objs, attrs=attrs, o=st['q'])
+                reqs.append(r)
+                for b in range(3):
+                    plan.append((k, b, len(reqs) - 1))
+            elif 'setdata' in st:
+                rows = st['setdata']
+            elif 'setobj' in st:
+                objs = st['setobj']
+            elif 'setattr' in st:
+                attrs = st['setattr']
+        return reqs, plan
+    content = [c['rows']] * 3
+    for k, st in enumerate(c['steps']):
+        if 'q' in st:
+            for b in range(3):
+                r = _table_req(content[b], st['q'])
+                key_ = json.dumps(r, sort_keys=True)
+                if key_ not in index:
+                    index[key_] = len(reqs)
+                    reqs.append(r)
+                plan.append((k, b, index[key_]))
+        elif 'set' in st:
+            content = [st['set']] * 3
+        elif 'flip' in st:
+            content = list(content)
+            for b in range(3):
+                out = houts[b][k] if k < len(houts[b]) else {}
+                if 'content' in out:
+                    content[b] = out['content']
+    return reqs, plan
+
+
+def requests(c, io=None):
+    if c['level'] in ('hist', 'chist'):
+        return hist_plan(c, io)[0]
     if c['level'] == 'slice':
         return [dict(op='C05.slice', sl=s, len=c['len']) for s in c['sls']]
     if c['level'] == 'malformed':
@@ -529,7 +891,67 @@ def _strip_be(x):
     return x
 
 
+def _hist_str(c, upto):
+    out = []
+    for st in c['steps'][:upto + 1]:
+        if 'q' in st:
+            o = st['q']
+            out.append(o['k'] + (str(o['item']) if o['k'] == 'getitem' else ''))
+        elif 'set' in st:
+            out.append(f"data={st['set']}")
+        elif 'flip' in st:
+            out.append(f"flip{st['flip']} via {st['via']}")
+        elif 'mutres' in st:
+            out.append(f"({st['mutres']['k']}).data={st['to']}")
+        else:
+            out.append(str(st))
+    return '; '.join(out)
+
+
+def judge_history(c, io, rep):
+    houts = io['houts']
+    reqs, plan = hist_plan(c, io)
+    ctx = c['level'] == 'chist'
+    for b, be in enumerate(BACKENDS):
+        if len(houts[b]) != len(c['steps']):
+            return dict(ok=False, kind='property', backend=be, detail=f'{be}: history aborted: {houts[b]}')
+        prev_shape = (len(c['rows']), len(c['rows'][0]))
+        for k, st in enumerate(c['steps']):
+            out = houts[b][k]
+            if 'q' not in st and 'err' in out:
+                return dict(ok=False, kind='property', backend=be, step=k,
+                            detail=f'{be}: step {k} of [{_hist_str(c, k)}] raised {out["err"]}')
+            if 'set' in st:
+                prev_shape = (len(st['set']), len(st['set'][0]) if st['set'] else 0)
+            if 'flip' in st and 'content' in out:
+                sh = (len(out['content']), len(out['content'][0]) if out['content'] else 0)
+                if sh != prev_shape:
+                    return dict(ok=False, kind='property', backend=be, step=k,
+                                detail=f'{be}: a cell edit changed the shape to {sh} in [{_hist_str(c, k)}]')
+    for k, b, ri in plan:
+        r = rep[ri]
+        be = BACKENDS[b]
+        spec = r['spec']
+        if ctx:
+            if _strip_be(r['model'][b]) != spec:
+                return dict(ok=False, kind='harness', detail=f'{be}: context model {r["model"][b]} != spec {spec}')
+            got = _strip_be(houts[b][k])
+        else:
+            if r['model'][b] != spec:
+                return dict(ok=False, kind='harness', detail=f'{be}: model {r["model"][b]} != spec {spec}')
+            got = houts[b][k]
+        if got != spec:
+            return dict(ok=False, kind='property', backend=be, step=k,
+                        detail=f'{be}: after [{_hist_str(c, k)}] the last operation returned {houts[b][k]}; for the '
+                               f'current content {reqs[ri]["rows"]} the specification value is {spec}')
+        if ctx and 'ctx' in houts[b][k] and houts[b][k]['ctx']['be'] != be:
+            return dict(ok=False, kind='property', backend=be, step=k, detail=f'result changed backend: {houts[b][k]}')
+    return dict(ok=True)
+
+
 def judge(c, io, rep):
+    if c['level'] in ('hist', 'chist'):
+        return judge_history(c, io, rep)
     if c['level'] == 'slice':
         got = [r['idx'] for r in rep]
         if got == io['idx']:
@@ -573,6 +995,8 @@ def judge(c, io, rep):
 
 
 def nontrivial(c):
+    if c['level'] in ('hist', 'chist'):
+        return any(k in st for st in c['steps'] for k in ('set', 'flip', 'mutres', 'setdata', 'setobj', 'setattr'))
     if c['level'] in ('slice', 'malformed'):
         return c['level'] == 'slice'
     return G.is_mixed(c['rows']) and c['o']['k'] not in ('shape',)
@@ -581,6 +1005,8 @@ def nontrivial(c):
 def key(c):
     if c['level'] == 'slice':
         return ['slice', c['len']]
+    if c['level'] in ('hist', 'chist'):
+        return [c['level'], c['rows'], c['steps']]
     return [c['level'], c['rows'], c.get('item'), c['o']]
 
 
@@ -594,9 +1020,21 @@ def _item_shape(it):
     return ','.join(one(k) for k in it)
 
 
+def _step_kind(st):
+    for k in ('set', 'flip', 'mutres', 'setdata', 'setobj', 'setattr'):
+        if k in st:
+            return k + (':' + st['via'] if k == 'flip' else '') + (':' + st.get('how', 'lists') if k == 'set' else '')
+    return None
+
+
 def branch(c, io, rep):
     if c['level'] == 'slice':
         return ['slices']
+    if c['level'] in ('hist', 'chist'):
+        out = [c['stream']]
+        out += sorted({c['level'] + ':' + _step_kind(st) for st in c['steps'] if _step_kind(st)})
+        out += sorted({c['level'] + ':q:' + st['q']['k'] for st in c['steps'] if 'q' in st})
+        return out
     o = c['o']
     lab = o['k']
     if o['k'] == 'getitem':
@@ -617,12 +1055,33 @@ def branch(c, io, rep):
 def signature(c, io, rep, v):
     if c['level'] == 'slice':
         return 'C05:sliceIndices'
+    if c['level'] in ('hist', 'chist'):
+        st = c['steps'][v['step']] if isinstance(v.get('step'), int) and v['step'] < len(c['steps']) else {}
+        lab = st['q']['k'] if 'q' in st else (_step_kind(st) or '?')
+        muts = '+'.join(sorted({_step_kind(x).split(':')[0] for x in c['steps'] if _step_kind(x)}))
+        return f"C05:{c['level']}:{muts}:{lab}:{v.get('backend', '?')}:{v.get('kind')}"
     o = c['o']
     lab = o['k'] + ('[' + _item_shape(o['item']) + ']' if o['k'] == 'getitem' else '')
     return f"C05:{c['level']}:{lab}:{v.get('backend', '?')}:{v.get('kind')}"
 
 
 def shrink(c):
+    if c['level'] in ('hist', 'chist'):
+        steps = c['steps']
+        keep = lambda st: any(x in st for x in ('set', 'setdata', 'setobj', 'setattr'))
+        # drop blocks of query / edit steps, large blocks first (the content-defining `data =` steps stay, so the
+        # later operations remain valid for the shape they were generated for)
+        size = max(1, len(steps) // 2)
+        seen = set()
+        while size >= 1:
+            for a in range(0, len(steps), size):
+                new = steps[:a] + [st for st in steps[a:a + size] if keep(st)] + steps[a + size:]
+                k_ = json.dumps(new, sort_keys=True)
+                if len(new) < len(steps) and k_ not in seen and any('q' in st for st in new):
+                    seen.add(k_)
+                    yield dict(c, steps=new)
+            size //= 2
+        return
     if c['level'] in ('slice', 'chain', 'malformed'):
         return
     o = c['o']
